@@ -119,9 +119,10 @@ def handleC02 (j : Json) : Except String Json := do
       .ok [Poly.eval (fpe2D polyOps Tmax (Jinns.Holds.comp drift) (fun i j => Jinns.Holds.comp (diff.getD i []) j) u) pt]
     | _ => evaluate polyOps polyExt (fun pt f => Poly.eval f pt) Tmax b none args n p
   let doc := Jinns.Holds.documentedAt spec pt
+  let rejected := (j.getObjVal? "rejected" >>= (·.getBool?)).toOption.getD false
   let holds := match observed with
-    | some o => Jinns.Holds.holdsC02 spec pt o relTol
-    | none => none
+    | some o => Jinns.Holds.holdsC02Obs spec pt (some o) relTol
+    | none => if rejected then Jinns.Holds.holdsC02Obs spec pt none relTol else none
   let solves := Jinns.Holds.solvesEverywhere spec
   let (mv, me) := match model with
     | .ok v => (jRats v, Json.null)
